@@ -4,6 +4,7 @@ From PegV Require Import Utf8 State Syntax Fields FieldsFacts GetFieldsFacts Typ
 Theorem C15_facts :
   insens_guard Extracted.rcfg = true /\ Extracted.x_leftrec_needs_clone = true /\
   Extracted.x_pos_variants_checked = true /\ Extracted.x_cli_exit_nonzero = true /\
+  Extracted.x_idents_checked = true /\ Extracted.x_cycles_checked = true /\ Extracted.x_raw_kw_guard = true /\
   fcfg_sound Extracted.fcfg = true /\
   Extracted.file_codegen_src_rule_rs = true /\ Extracted.file_codegen_src_lookahead_rs = true /\
   Extracted.file_codegen_src_string_rs = true /\ Extracted.file_codegen_src_include_rule_rs = true /\
@@ -17,7 +18,7 @@ Print Assumptions C15_facts.
 
 Definition compile_x (g : grammar) (s : csettings) (F : nat) : gres :=
   compile_f Extracted.fcfg (insens_guard Extracted.rcfg) Extracted.x_leftrec_needs_clone
-            Extracted.x_pos_variants_checked g s F.
+            Extracted.x_pos_variants_checked Extracted.x_idents_checked Extracted.x_cycles_checked g s F.
 
 (* Termination.  The model is a total function of (grammar, settings, fuel); the
    only answer that stands for "no answer" is GOverflow (recursion over includes
@@ -27,15 +28,40 @@ Definition compile_x (g : grammar) (s : csettings) (F : nat) : gres :=
 Theorem C15_terminates : forall (g : grammar) (s : csettings) (rank : name -> nat),
   ranked g rank ->
   forall F, enough g rank <= F -> forall i, compile_x g s F <> GOverflow i.
-Proof. intros g s rank R F HF i. apply (compile_never_overflows _ _ g _ _ s rank R F HF). Qed.
+Proof. intros g s rank R F HF i. apply (compile_never_overflows _ _ g _ _ _ _ s rank R F HF). Qed.
 Print Assumptions C15_terminates.
 
-(* ... and if it is not, no fuel suffices: `@export A = >A;` recurses for ever in
-   the model, i.e. until the stack overflows in the real compiler (known finding
-   c15:include-cycle-stack-overflow). *)
-Theorem C15_cycle_overflows : forall s F, compile_x cyclic s F = GOverflow 0.
+(* With the include-cycle check that the compiler now makes first, no hypothesis on
+   the grammar is left: for EVERY grammar with distinct rule names there is a fuel
+   bound, computed from the grammar, from which on the model never answers "out of
+   fuel" - the compiler's recursion over includes is bounded, it answers with code
+   or with an error (a cycle is one). *)
+Theorem C15_never_overflows : forall (g : grammar) (s : csettings),
+  NoDup (rule_names g) ->
+  forall F, enough g (inc_depth g (S (length g))) <= F -> forall i, compile_x g s F <> GOverflow i.
+Proof. intros g s ND F HF i. apply (checked_compile_never_overflows _ _ g _ _ _ s ND F HF). Qed.
+Print Assumptions C15_never_overflows.
+
+Theorem C15_cycles_are_rejected : forall (g : grammar) (s : csettings) F,
+  has_cycle g = true -> compile_x g s F = GCycle \/ exists n, compile_x g s F = GBadIdent n.
+Proof. intros g s F H. apply cycle_rejected. exact H. Qed.
+Print Assumptions C15_cycles_are_rejected.
+
+(* names that are not Rust identifiers are answered with an error before any
+   identifier is built from them *)
+Theorem C15_bad_identifiers_are_rejected : forall (g : grammar) (s : csettings) F n,
+  find (fun x => negb (ident_valid x)) (checked_idents g s) = Some n -> compile_x g s F = GBadIdent n.
+Proof. intros g s F n H. unfold compile_x, compile_f. cbn. rewrite H. reflexivity. Qed.
+Print Assumptions C15_bad_identifiers_are_rejected.
+
+(* ... and if it is not, no fuel suffices: without the cycle check `@export A = >A;`
+   recurses for ever in the model, i.e. until the stack overflows in the real
+   compiler (the defect repaired by the cycle check). *)
+Theorem C15_cycle_overflows_unchecked : forall s F,
+  compile_f Extracted.fcfg (insens_guard Extracted.rcfg) Extracted.x_leftrec_needs_clone
+            Extracted.x_pos_variants_checked false false cyclic s F = GOverflow 0.
 Proof. intros. apply cycle_overflows. Qed.
-Print Assumptions C15_cycle_overflows.
+Print Assumptions C15_cycle_overflows_unchecked.
 
 Theorem C15_cycle_is_not_ranked : forall rank, ~ ranked cyclic rank.
 Proof.
